@@ -8,6 +8,16 @@
          else { r.Lock(); r.plugins = append(r.plugins, p); r.sortPlugins(); r.Unlock() }
                                                                  APActivate p   (atomic under the adaptation mutex)
          r.finishedPluginSync()           syncLock.Unlock()      APRelease p
+       a failing synchronisation (handler error, time-out, connection lost during it) is APFail: the
+       plugin is not appended, the exclusive section is given up all the same.
+     a registered plugin instance whose connection is lost (plugin.close: p.closed = true):
+         it stays on r.plugins until the next removeClosedPlugins   APClose p   (moved from [active] to [zombies])
+         removeClosedPlugins (deferred by every request; first thing of sortPlugins at an activation)
+         drops exactly the closed INSTANCES                          [zombies := []] in AGEnd and APActivate
+       A plugin id of this model is an INSTANCE (one connection): a plugin that disconnects and registers
+       again under the same index and name is a fresh id; Spec/SyncLockSpec.v: name_of maps instances
+       to names.  Assumed: the loss of a connection is noticed between two requests (what happens to a
+       request in flight to a plugin whose connection breaks is C07's subject).
      a runtime goroutine g creating container c inside a sync block:
          b := r.BlockPluginSync()         syncLock.RLock()       AGAcquire g
          r.CreateContainer(ctx, req)      r.Lock()               AGBegin g c    (to := r.plugins)
@@ -45,6 +55,7 @@ Inductive ppc :=
 | PSnapshot (ids : list cid)      (* syncFn has read the store and handed it to the plugin *)
 | PActivated (ids : list cid)     (* appended to r.plugins, still inside the exclusive section *)
 | PDone (ids : list cid)          (* finishedPluginSync done *)
+| PClosed (ids : list cid)        (* was registered; connection lost (p.closed): never served again *)
 | PFailed.                        (* syncFn failed: never activated, lock released *)
 
 (* program counter of a runtime goroutine (absent = idle) *)
@@ -63,12 +74,13 @@ Record state := {
   plugs : list (pid * ppc);
   gors : list (gid * gpc);
   recv : list (pid * cid);         (* ghost: p's CreateContainer handler ran for c *)
-  used : list cid                  (* ghost: ids ever passed to CreateContainer *)
+  used : list cid;                 (* ghost: ids ever passed to CreateContainer *)
+  zombies : list pid               (* closed instances still on r.plugins (r.plugins = active ++ zombies up to order) *)
 }.
 
 Definition init : state :=
   {| readers := 0; writer := false; mutex := None; store := []; active := [];
-     plugs := []; gors := []; recv := []; used := [] |}.
+     plugs := []; gors := []; recv := []; used := []; zombies := [] |}.
 
 Inductive action :=
 | APArrive (p : pid)
@@ -77,6 +89,7 @@ Inductive action :=
 | APFail (p : pid)
 | APActivate (p : pid)
 | APRelease (p : pid)
+| APClose (p : pid)              (* the connection of a registered instance is lost *)
 | AGAcquire (g : gid)
 | AGBegin (g : gid) (c : cid)
 | AGDeliver (g : gid) (p : pid)
@@ -90,19 +103,23 @@ Definition remove_s (x : string) (l : list string) : list string :=
 
 Definition set_plug (s : state) (p : pid) (pc : ppc) : state :=
   {| readers := readers s; writer := writer s; mutex := mutex s; store := store s; active := active s;
-     plugs := aset p pc (plugs s); gors := gors s; recv := recv s; used := used s |}.
+     plugs := aset p pc (plugs s); gors := gors s; recv := recv s; used := used s; zombies := zombies s |}.
 
 Definition set_gor (s : state) (g : gid) (gc : gpc) : state :=
   {| readers := readers s; writer := writer s; mutex := mutex s; store := store s; active := active s;
-     plugs := plugs s; gors := aset g gc (gors s); recv := recv s; used := used s |}.
+     plugs := plugs s; gors := aset g gc (gors s); recv := recv s; used := used s; zombies := zombies s |}.
 
 Definition set_writer (s : state) (w : bool) : state :=
   {| readers := readers s; writer := w; mutex := mutex s; store := store s; active := active s;
-     plugs := plugs s; gors := gors s; recv := recv s; used := used s |}.
+     plugs := plugs s; gors := gors s; recv := recv s; used := used s; zombies := zombies s |}.
+
+Definition set_zombies (s : state) (z : list pid) : state :=
+  {| readers := readers s; writer := writer s; mutex := mutex s; store := store s; active := active s;
+     plugs := plugs s; gors := gors s; recv := recv s; used := used s; zombies := z |}.
 
 Definition set_mutex (s : state) (m : option gid) : state :=
   {| readers := readers s; writer := writer s; mutex := m; store := store s; active := active s;
-     plugs := plugs s; gors := gors s; recv := recv s; used := used s |}.
+     plugs := plugs s; gors := gors s; recv := recv s; used := used s; zombies := zombies s |}.
 
 Definition step (s : state) (a : action) : option state :=
   match a with
@@ -132,8 +149,8 @@ Definition step (s : state) (a : action) : option state :=
       match alookup p (plugs s), mutex s with
       | Some (PSnapshot ids), None =>
           Some {| readers := readers s; writer := writer s; mutex := None; store := store s;
-                  active := active s ++ [p];
-                  plugs := aset p (PActivated ids) (plugs s); gors := gors s; recv := recv s; used := used s |}
+                  active := active s ++ [p];              (* append; sortPlugins: removeClosedPlugins drops the closed instances *)
+                  plugs := aset p (PActivated ids) (plugs s); gors := gors s; recv := recv s; used := used s; zombies := [] |}
       | _, _ => None
       end
   | APRelease p =>
@@ -141,13 +158,22 @@ Definition step (s : state) (a : action) : option state :=
       | Some (PActivated ids) => Some (set_writer (set_plug s p (PDone ids)) false)
       | _ => None
       end
+  | APClose p =>                                     (* noticed between two requests *)
+      match alookup p (plugs s), mutex s with
+      | Some (PDone ids), None =>
+          Some {| readers := readers s; writer := writer s; mutex := None; store := store s;
+                  active := remove_s p (active s);
+                  plugs := aset p (PClosed ids) (plugs s); gors := gors s; recv := recv s; used := used s;
+                  zombies := p :: zombies s |}
+      | _, _ => None
+      end
   | AGAcquire g =>                                   (* sync.RWMutex.RLock: no writer *)
       match alookup g (gors s) with
       | None =>
           if writer s then None
           else Some {| readers := S (readers s); writer := writer s; mutex := mutex s; store := store s;
                        active := active s; plugs := plugs s; gors := (g, GHoldR) :: gors s;
-                       recv := recv s; used := used s |}
+                       recv := recv s; used := used s; zombies := zombies s |}
       | Some _ => None
       end
   | AGBegin g c =>                                   (* sync.Mutex.Lock: free; ids are fresh *)
@@ -157,7 +183,7 @@ Definition step (s : state) (a : action) : option state :=
           else Some {| readers := readers s; writer := writer s; mutex := Some g; store := store s;
                        active := active s; plugs := plugs s;
                        gors := aset g (GDispatching c (active s) (active s)) (gors s);
-                       recv := recv s; used := c :: used s |}
+                       recv := recv s; used := c :: used s; zombies := zombies s |}
       | _, _ => None
       end
   | AGDeliver g p =>
@@ -167,13 +193,14 @@ Definition step (s : state) (a : action) : option state :=
           then Some {| readers := readers s; writer := writer s; mutex := mutex s; store := store s;
                        active := active s; plugs := plugs s;
                        gors := aset g (GDispatching c to (remove_s p rem)) (gors s);
-                       recv := (p, c) :: recv s; used := used s |}
+                       recv := (p, c) :: recv s; used := used s; zombies := zombies s |}
           else None
       | _ => None
       end
   | AGEnd g =>
       match alookup g (gors s) with
-      | Some (GDispatching c to []) => Some (set_mutex (set_gor s g (GDispatched c to)) None)
+      | Some (GDispatching c to []) =>                (* deferred removeClosedPlugins, then r.Unlock() *)
+          Some (set_zombies (set_mutex (set_gor s g (GDispatched c to)) None) [])
       | _ => None
       end
   | AGStore g =>
@@ -181,7 +208,7 @@ Definition step (s : state) (a : action) : option state :=
       | Some (GDispatched c to) =>
           Some {| readers := readers s; writer := writer s; mutex := mutex s; store := c :: store s;
                   active := active s; plugs := plugs s; gors := aset g (GStored c) (gors s);
-                  recv := recv s; used := used s |}
+                  recv := recv s; used := used s; zombies := zombies s |}
       | _ => None
       end
   | AGRelease g =>
@@ -189,7 +216,7 @@ Definition step (s : state) (a : action) : option state :=
       | Some (GStored _) =>
           Some {| readers := pred (readers s); writer := writer s; mutex := mutex s; store := store s;
                   active := active s; plugs := plugs s; gors := aremove g (gors s);
-                  recv := recv s; used := used s |}
+                  recv := recv s; used := used s; zombies := zombies s |}
       | _ => None
       end
   | AGReleaseAgain g =>                              (* b.r == nil: the guard of Unblock makes it a no-op *)
@@ -221,7 +248,8 @@ Inductive lev :=
 | LBlockRelAgain (g : gid)                   (* logged before a repeated Unblock of the block g released last *)
 | LSyncEnter (p : pid) (ids : list cid)      (* SyncFn entered; ids = the store it read *)
 | LSyncRecv (p : pid) (ids : list cid)       (* p's Synchronize handler received ids *)
-| LSyncRet (p : pid) (ok : bool).            (* SyncFn returned (ok = nil error) *)
+| LSyncRet (p : pid) (ok : bool)             (* SyncFn returned (ok = nil error) *)
+| LClose (p : pid).                          (* the plugin instance p stopped and its connection is closed *)
 
 Definition incl_b (a b : list string) : bool := forallb (fun x => smem x b) a.
 Definition same_set (a b : list string) : bool := incl_b a b && incl_b b a.
@@ -260,6 +288,7 @@ Definition expand (s : state) (e : lev) : option (list action) :=
               ++ [APAcquire p; APSnapshot p])
   | LSyncRecv p _ => Some []
   | LSyncRet p ok => Some (if ok then [APActivate p; APRelease p] else [APFail p])
+  | LClose p => Some [APClose p]
   end.
 
 (* what the event claims about data, checked after its steps *)
@@ -293,7 +322,7 @@ Fixpoint replay_from (i : nat) (s : state) (tr : list lev) : state + nat :=
 Definition replay (tr : list lev) : state + nat := replay_from 0 init tr.
 
 Definition settled (pc : ppc) : bool :=
-  match pc with PDone _ | PFailed => true | _ => false end.
+  match pc with PDone _ | PClosed _ | PFailed => true | _ => false end.
 
 (* every block released, every registration finished *)
 Definition quiescent (s : state) : bool :=
